@@ -25,8 +25,7 @@ EXTENDS Match, Integers, TLC
 
 CONSTANTS Clients, KeyPerms,
           Surveyed,  \* BOOLEAN: peer brokers answer surveys (the mesh router reports established connections). Only the
-                     \* message store answers surveys (history across brokers: not modelled yet; must be FALSE when a
-                     \* behaviour replays history)
+                     \* message store answers surveys: history replies then draw on every broker's store (Replays)
           Home       \* [Clients -> broker name]: the broker a client connects to.  With one broker this is the plain
                      \* single-broker specification; with several, the brokers are joined by gossip (Gossip.tla) and every
                      \* step of this module is taken at gossip QUIESCENCE: the cluster then behaves like one broker,
@@ -99,10 +98,21 @@ LastN(seq, ssid, n) ==      \* the n newest elements of seq matching ssid, as a 
          IF HistMatch(ssid, Ssid(m.w)) THEN { <<m.w, m.p>> } \cup LastN(SubSeq(seq, 1, Len(seq) - 1), ssid, n - 1)
          ELSE LastN(SubSeq(seq, 1, Len(seq) - 1), ssid, n)
 
-(* last: -1 = option absent (default 1).  win: every stored message is "now". *)
-History(b, ssid, last, win) ==
-    LET limit == IF last < 0 THEN 1 ELSE last
-    IN  IF win \in {"fromFuture", "untilPast"} THEN {} ELSE LastN(store[b], ssid, limit)
+(* last: -1 = option absent (default 1).  win: every stored message is "now".
+   Replays = the set of replies a history query may give.  One broker (or no peer answering surveys): exactly the newest
+   `limit' matching messages of the requester's broker.  With peers answering (Surveyed): the broker adds what every
+   peer returns for the same query and keeps `limit' of the union by time (Frame.Limit) - the stored messages being of
+   the same instant, ANY `limit' of the union (all of it if it is smaller).  Only with the emitter matcher: a survey
+   is published on <<system, query, id>> and the surveyors subscribe to <<system, query>>, which the mqtt matcher
+   (same depth) never matches - there no peer ever answers and the reply is the local one, after the 2 s wait. *)
+LimitOf(last) == IF last < 0 THEN 1 ELSE last
+Replays(b, ssid, last, win) ==
+    IF win \in {"fromFuture", "untilPast"} THEN { {} }
+    ELSE IF ~(Surveyed /\ Mode = "emitter") THEN { LastN(store[b], ssid, LimitOf(last)) }
+    ELSE LET U == UNION { LastN(store[x], ssid, LimitOf(last)) : x \in Brokers }
+             n == IF Cardinality(U) < LimitOf(last) THEN Cardinality(U) ELSE LimitOf(last)
+         IN  { S \in SUBSET U : Cardinality(S) = n }
+History(b, ssid, last, win) == CHOOSE S \in Replays(b, ssid, last, win) : TRUE       \* (deterministic when ~Surveyed)
 
 ---------------------------------------------------------------------------
 (* shared pieces of the handlers *)
@@ -145,9 +155,9 @@ Subscribe(c, k, w, syn, last, win) ==
        IF e # 0
        THEN /\ out' = [Quiet EXCEPT ![c].s = <<PErr(e), PSuback(128)>>]
             /\ UNCHANGED svars
-       ELSE LET ssid == Ssid(w)
+       ELSE \E rep \in (IF Perm(k, "l") THEN Replays(Home[c], Ssid(w), last, win) ELSE { {} }) :
+            LET ssid == Ssid(w)
                 r    == DoSubscribe(c, ssid, w, [held |-> held, trie |-> trie])
-                rep  == IF Perm(k, "l") THEN History(Home[c], ssid, last, win) ELSE {}
             IN  /\ held' = r.held /\ trie' = r.trie
                 /\ out'  = [x \in Clients |->
                               [s |-> IF x = c THEN (IF rep = {} THEN <<>> ELSE <<PReplay(rep)>>) \o <<PSuback(0)>> ELSE <<>>,
@@ -240,7 +250,8 @@ HistoryReq(c, k, w, syn, last, win, qos) ==
     /\ conn[c] = "open"
     /\ LET ack == IF qos > 0 THEN <<PPuback>> ELSE <<>>
            e   == IF syn # "ok" THEN 400 ELSE IF ~Perm(k, "l") THEN 401 ELSE 0
-       IN  /\ out' = [Quiet EXCEPT ![c].s = <<IF e # 0 THEN PResp("history", e) ELSE PHist(History(Home[c], Ssid(w), last, win))>> \o ack]
+       IN  /\ \E rep \in (IF e # 0 THEN { {} } ELSE Replays(Home[c], Ssid(w), last, win)) :
+                  out' = [Quiet EXCEPT ![c].s = <<IF e # 0 THEN PResp("history", e) ELSE PHist(rep)>> \o ack]
            /\ UNCHANGED svars
 
 (* Any ending: DISCONNECT, the socket closing (at a packet boundary or inside a packet), a malformed packet.
